@@ -78,12 +78,15 @@ def run(ctx):
     # design + structure: exhaustive
     res = ctx.tlc("TableGrid", None, workers=16, cfg_text=CFG % (2, 2, 2, "FALSE", "SPECIFICATION Spec", "PROPERTIES Terminates"), timeout=3000, heap_gb=12)
     cov["structure-2x2-span2"] = replay(ctx, res, "s22")
-    dims = (3, 2, 2) if not thorough else (3, 3, 2)
+    # (3 rows of <= 2 cells: 75 894 tables, every 4th in the quick tier; 3 rows of <= 3 cells would be 17 million)
+    dims = (3, 2, 2)
     res = ctx.tlc("TableGrid", None, workers=16, cfg_text=CFG % (dims + ("FALSE", "INIT InitBuild\nNEXT Next", "")), timeout=6000, heap_gb=12)
     cov["structure-%dx%d-span%d" % dims] = replay(ctx, res, "sbig", stride=1 if thorough else 4)
     if thorough:
         res = ctx.tlc("TableGrid", None, workers=16, cfg_text=CFG % (2, 2, 3, "FALSE", "SPECIFICATION Spec", "PROPERTIES Terminates"), timeout=6000, heap_gb=12)
         cov["structure-2x2-span3"] = replay(ctx, res, "s223")
+        res = ctx.tlc("TableGrid", None, workers=16, cfg_text=CFG % (2, 3, 2, "FALSE", "SPECIFICATION Spec", "PROPERTIES Terminates"), timeout=6000, heap_gb=12)
+        cov["structure-2x3-span2"] = replay(ctx, res, "s232", stride=4)
     # sized tables: seeded simulation of the building actions
     for (mr, mc, ms, num) in ((3, 3, 3, 500),) if not thorough else ((3, 3, 3, 6000), (4, 3, 3, 3000), (2, 4, 4, 3000)):
         res = ctx.tlc("TableGrid", None, workers=8, cfg_text=CFG % (mr, mc, ms, "TRUE", "INIT InitBuild\nNEXT Next", ""), simulate="num=%d" % num, depth=40, timeout=3000)
